@@ -314,22 +314,23 @@ type sim struct {
 	durable   [][]byte // the set as of the last transaction commit (what a crash falls back to)
 	dirty     bool     // a successful Add/Delete happened since the last trie-level commit
 
-	step       int
-	stats      map[string]int64
-	viol       *kernel.Violation
-	harness    string
-	states     []string
-	ops        []string
-	mech       int  // commits + evicts + reloads performed
-	mechLoop   int  // ... of which during the drawn operation sequence (the epilogue always adds some)
-	nonEmpty   bool // a root check passed on a non-empty set
-	shrinking  bool // profile 3: currently in the delete-heavy phase
-	lastLine   string
-	repeats    int
-	poisoned   bool     // known-finding attribution: a commit ran while the partly filled tail page was evicted (see beforeCommit)
-	rearmLater bool     // rearm() was asked for while a fault was armed
-	trace      bool     // debugging aid (dump_test.go): record every operation with the full key
-	traceOps   []string // never logged, never influences the run
+	step            int
+	stats           map[string]int64
+	viol            *kernel.Violation
+	harness         string
+	states          []string
+	ops             []string
+	mech            int  // commits + evicts + reloads performed
+	mechLoop        int  // ... of which during the drawn operation sequence (the epilogue always adds some)
+	nonEmpty        bool // a root check passed on a non-empty set
+	shrinking       bool // profile 3: currently in the delete-heavy phase
+	lastLine        string
+	repeats         int
+	poisoned        bool     // known-finding attribution: a commit ran while the partly filled tail page was evicted (see beforeCommit)
+	poisonedDurable bool     // ... and that commit's pages became durable with a transaction commit
+	rearmLater      bool     // rearm() was asked for while a fault was armed
+	trace           bool     // debugging aid (dump_test.go): record every operation with the full key
+	traceOps        []string // never logged, never influences the run
 }
 
 func (s *sim) stat(k string, d int64) { s.stats[k] += d }
@@ -484,7 +485,7 @@ func (s *sim) rearm() {
 func (s *sim) beforeCommit() {
 	if s.dirty && s.d.watchOn && !s.d.watchHit && !s.poisoned {
 		s.poisoned = true
-		s.stat("known_tail_page_hazard_runs", 1)
+		s.stat("known_tail_page_hazard_commits", 1)
 	}
 }
 
@@ -516,6 +517,7 @@ func (s *sim) abort(why string) {
 	s.cur = newKeyset(s.durable)
 	s.committed = s.cur.snapshot()
 	s.dirty = false
+	s.poisoned = s.poisonedDurable // the rollback also undid a poisoning commit that was not yet durable
 	s.mech++
 	s.stat("crash_reload", 1)
 	ok, err, p := s.verifyRoot("crash-reload-mismatch", "after "+why+" + reload from the durable store")
@@ -764,6 +766,7 @@ func (s *sim) oneStep() {
 			// gets the next transaction's committer.
 			s.d.txCommit()
 			s.durable = append([][]byte(nil), s.committed...)
+			s.poisonedDurable = s.poisoned
 			s.v.closed = true
 			s.v = &view{d: s.d}
 			s.trie.SetCommitter(s.v)
@@ -967,6 +970,7 @@ func (s *sim) run() {
 	s.commitPoint()
 	s.d.txCommit()
 	s.durable = append([][]byte(nil), s.committed...)
+	s.poisonedDurable = s.poisoned
 	s.flushRepeats()
 	s.log.Add("final n=%d", len(s.cur.sorted))
 	s.abort("end-of-run crash")
